@@ -196,6 +196,8 @@ def st_mini(files, max_extra=4, split=False):
             if how:
                 strip.append([slot, how])
         case = {"kind": "mini", "file": fn, "residues": idx, "moves": moves, "drop": drops, "relabel": relabel, "strip": strip}
+        if draw(st.integers(0, 3)) == 0:
+            case["reletter"] = {"slots": draw(st.lists(st.integers(0, len(idx) - 1), min_size=1, max_size=len(idx), unique=True)), "c7": draw(st.booleans())}
         if split:
             cuts = []
             for slot in range(len(idx)):
@@ -247,9 +249,38 @@ def build_mini(case):
         return True
 
     out = rebuild(s3, keep=set(idx), point_fn=pf, atom_keep=ak if (dropped or stripped) else None, ident_fn=mini_ident_fn(case.get("relabel"), idx))
+    if case.get("reletter"):
+        out = reletter_u_to_t(out, case["reletter"]["slots"], case["reletter"]["c7"])
     if case.get("split"):
         out = split_fragments(out, case["split"])
     return out
+
+
+def reletter_u_to_t(s3, slots, add_c7=True):
+    """uridines at the given positions become thymidines (named DT; with a methyl carbon C7 placed 1.5 A from C5, away
+    from the ring centre, or without it - a thinned T): the corpus has four T residues in all, so the thymine branches
+    of every per-base table would otherwise hardly be visited"""
+    from rnapolis.common import ResidueAuth, ResidueLabel
+    from rnapolis.tertiary import Atom, Residue3D, Structure3D
+
+    residues = list(s3.residues)
+    for slot in slots:
+        k = slot % len(residues)
+        r = residues[k]
+        if r.one_letter_name != "U":
+            continue
+        label = ResidueLabel(r.label.chain, r.label.number, "DT") if r.label is not None else None
+        auth = ResidueAuth(r.auth.chain, r.auth.number, r.auth.icode, "DT") if r.auth is not None else None
+        atoms = [Atom(a.entity_id, label, auth, a.model, a.name, a.x, a.y, a.z, a.occupancy) for a in r.atoms]
+        ring = [a for a in r.atoms if a.name in ("N1", "C2", "N3", "C4", "C5", "C6")]
+        c5 = next((a for a in r.atoms if a.name == "C5"), None)
+        if add_c7 and c5 is not None and len(ring) == 6:
+            centre = np.mean(np.array([[a.x, a.y, a.z] for a in ring]), axis=0)
+            v = np.array([c5.x, c5.y, c5.z]) - centre
+            p = np.array([c5.x, c5.y, c5.z]) + 1.5 * v / np.linalg.norm(v)
+            atoms.append(Atom(c5.entity_id, label, auth, c5.model, "C7", float(p[0]), float(p[1]), float(p[2]), c5.occupancy))
+        residues[k] = Residue3D(label, auth, r.model, "T", tuple(atoms))
+    return Structure3D(residues)
 
 
 def split_fragments(s3, cuts):
@@ -446,7 +477,8 @@ def st_steered_hbond(files):
         "kind": st.just("steered-hbond"), "file": st.sampled_from(files), "pair": st.integers(0, 10 ** 6),
         "contact": st.integers(0, 10 ** 6), "what": st.sampled_from(["base", "base", "bph", "br", "angle", "angle", "cistrans", "bphtorsion"]),
         "bound": st.sampled_from([50.0, 130.0]),
-        "delta": st.sampled_from([1e-5, 1e-4, 1e-3, 1e-2, 0.1, 0.5]), "side": st.sampled_from([-1, 1]), "swap": st.booleans()})
+        "delta": st.sampled_from([1e-5, 1e-4, 1e-3, 1e-2, 0.1, 0.5]), "side": st.sampled_from([-1, 1]), "swap": st.booleans(),
+        "reletter": st.sampled_from([None, None, None, {"slots": [0, 1], "c7": True}, {"slots": [0, 1], "c7": False}])})
 
 
 @functools.lru_cache(maxsize=None)
